@@ -95,6 +95,8 @@ def main():
         return 0 if ok else 1
     finally:
         sh(f"git -C /repo worktree remove --force {wt}")
+        # the runs above regenerated lean/Upnp/Gen from the patched tree: restore it from /repo
+        sh(f"/venv/bin/python {VERIF}/tools/extract.py /repo")
 
 
 if __name__ == "__main__":
